@@ -65,12 +65,27 @@ fn run_case(rng: &mut Rng, clean: bool) -> Case {
         ctor_checks: 0,
     };
     // every eighth sequence is long (stale tickets pile up)
-    let n_ops = if rng.chance(1, 6) { 150 + rng.usize_below(500) } else { 1 + rng.usize_below(60) };
-    let max_live = 1 + rng.usize_below(8);
-    for _ in 0..n_ops {
+    let mut n_ops = if rng.chance(1, 6) { 150 + rng.usize_below(500) } else { 1 + rng.usize_below(60) };
+    let mut max_live = 1 + rng.usize_below(8);
+    // scale tier: one sequence in 16 first fills the queue with 31-1100 orders (past a 31-slot
+    // queue block, past the map's growth steps, past 2^10) and then drives it further
+    let wide = rng.chance(1, 16);
+    if wide {
+        max_live = if rng.chance(1, 8) {
+            *rng.pick(&[256usize, 300, 511, 512, 513, 1000, 1023, 1024, 1025, 1100])
+        } else {
+            *rng.pick(&[31usize, 32, 33, 62, 63, 64, 65, 93, 94, 100, 127, 128, 129, 200])
+        };
+        n_ops = max_live + 20 + rng.usize_below(max_live + 100);
+    }
+    for op_index in 0..n_ops {
         clock += 1;
         // long sequences are remove-heavy and pop-poor: stale tickets pile up
-        let op = if n_ops > 100 {
+        let op = if wide && op_index < max_live {
+            0
+        } else if wide {
+            rng.weighted(&[20, 30, 14, 10, 4, 2, 12, 8])
+        } else if n_ops > 100 {
             rng.weighted(&[40, 2, 36, 8, 4, 2, 6, 2])
         } else {
             rng.weighted(&[30, 22, 12, 14, 6, 4, 8, 4])
@@ -258,7 +273,7 @@ fn run_case(rng: &mut Rng, clean: bool) -> Case {
         let mut v = Vec::new();
         while let Some(a) = qq.pop() {
             v.push(*a);
-            if v.len() > 1000 {
+            if v.len() > list.len() + 1000 {
                 break;
             }
         }
@@ -313,6 +328,10 @@ pub fn run(tier: Tier, seed: u64) -> i32 {
             part.add("pops_compared_with_reference", c.pops);
             part.add("pops_after_a_removal_by_id", c.pops_after_remove);
             part.add("constructor_checks", c.ctor_checks);
+            part.maxset("max_calls_in_one_sequence", c.log.len() as u64);
+            if c.log.len() > 100 && c.log.iter().take(31).all(|l| l.starts_with("push")) {
+                part.add("wide_sequences(31-1100 orders queued at once)", 1);
+            }
             part.add(if clean { "clean_sequences(no re-push after remove)" } else { "sequences_with_re_push" }, 1);
             if c.k2 > 0 {
                 part.known(SIG_K2, c.k2);
@@ -343,7 +362,7 @@ pub fn run(tier: Tier, seed: u64) -> i32 {
         }
         part
     });
-    rep.rule = "seeded random call sequences (1-60 calls, 1-8 live ids) of push / pop / find / remove / len / is_empty / to_vec / pop-then-re-push directly on OrderQueue, in lock-step with a reference FIFO (VecDeque of live orders; remove deletes; re-push joins at the back); then from_vec / From<Vec> / FromStr(Display) / serde built from the final content. A disagreeing pop is attributed to K2 only if the popped id was removed by id earlier, was pushed again, and the stale-ticket model predicts exactly that pop; every third sequence never re-pushes a removed id (no room for K2). non-trivial = sequence with >= 2 pops of which at least one follows a removal by id; distinct = distinct call logs".into();
+    rep.rule = "seeded random call sequences (1-60 calls, 1-8 live ids; every sixth 150-650 calls; every sixteenth first queues 31-1100 orders) of push / pop / find / remove / len / is_empty / to_vec / pop-then-re-push directly on OrderQueue, in lock-step with a reference FIFO (VecDeque of live orders; remove deletes; re-push joins at the back); then from_vec / From<Vec> / FromStr(Display) / serde built from the final content. A disagreeing pop is attributed to K2 only if the popped id was removed by id earlier, was pushed again, and the stale-ticket model predicts exactly that pop; every third sequence never re-pushes a removed id (no room for K2). non-trivial = sequence with >= 2 pops of which at least one follows a removal by id; distinct = distinct call logs".into();
     rep.assumptions.push("an id is never pushed while it is queued".into());
     rep.finish()
 }
